@@ -1,6 +1,7 @@
 """C04 — glyph attachments always form a forest over the segment's own slots (DESIGN.md §6; partial: theorems cover the rule-action engine)."""
 import lib
 from props import heapcheck, heapspec, segspec
+import fontsynth
 
 GEN_MODULES = ["Vm"]
 ASSUMPTIONS = ["theorems: attachment primitives write only parent/child/sibling (frame theorems), attach refuses self/parent/copied/deleted targets and cycles; "
@@ -25,6 +26,9 @@ def run(ctx):
     heapcheck.component(ctx, res, pred_heap, 3000 if q else 60000, "predicate: parent/child/sibling pointers stay inside the stream, no cycle, child chains = attached slots")
     heapcheck.end_to_end(ctx, res, pred_seg, 150 if q else 2500, 6 if q else 12, 10 if q else len(heapcheck.WORDS))
     heapcheck.shape_stage(ctx, res, 120 if q else 3000, 6 if q else 12)
+    # attach / re-attach / put_copy histories across passes (stale parent pointers of temporary copies)
+    heapcheck.shape_stage(ctx, res, 150 if q else 4000, 4, fontgen=fontsynth.gen_reattach_font, textgen=fontsynth.gen_reattach_text, pred=pred_seg,
+                          label="reattach: %d synthesised fonts of 2..3 positioning passes whose rules attach slots to each other, re-attach them and put_copy from references that assoc turned into temporary copies x %d texts")
     return res.as_dict()
 
 
